@@ -9,6 +9,8 @@ pub struct RxRec {
     pub head: u16,
     pub frame: Vec<u8>,
     pub hdr: Vec<u8>,
+    /// the device reported a used length shorter than the header (fault)
+    pub short: bool,
 }
 
 pub struct NetDev {
@@ -62,11 +64,13 @@ impl Personality for NetDev {
                 data.extend_from_slice(&frame);
                 ctx.write_out(chain, &data);
                 let mut used = data.len() as u32;
+                let mut short = false;
                 if self.short_len && ctx.tape.choose(4) == 1 {
                     used = ctx.tape.choose(hl as u64) as u32;
+                    short = true;
                     ctx.fault("used_len_short");
                 }
-                self.delivered.push_back(RxRec { head: chain.head, frame, hdr });
+                self.delivered.push_back(RxRec { head: chain.head, frame, hdr, short });
                 used
             }
             1 => {
